@@ -249,8 +249,13 @@ def _resolve_aborts(binary, lines, res, timeout):
     return res
 
 
-def run_model(lines, timeout=1800):
+def run_model(lines, timeout=1800, tolerant=False):
+    """tolerant: a case on which the model does not answer (killed, out of time) yields "(9 -100)" instead of ending the check
+    (for PROBES that only select cases; never for verdicts)"""
     res = _run_sharded(DRIVER, lines, timeout)
+    if tolerant:
+        res = _resolve_aborts(DRIVER, lines, res, timeout)          # the cases behind a dead worker are re-run in fresh ones
+        return [("(9 -100)" if (r is None or r.startswith("(9") or r == "(8)") else r) for r in res]
     for l, r in zip(lines, res):
         if r is None or r.startswith("(9") or r == "(8)":
             try:
